@@ -177,6 +177,30 @@ def gradient(r, gid, bbox, pal=None, spread=True, allow_focal=True):
     return f'<radialGradient id="{gid}" gradientUnits="{units}" cx="{f3(cx)}" cy="{f3(cy)}" r="{f3(rr)}"{foc}{gt}{sm}>{stops}</radialGradient>', "radial"
 
 
+def twin_gradient_source(r, gi=0):
+    """Two shapes in one glyph whose radial gradients have the same circles and stops but different residual
+    (non-uniform) gradientTransforms - candidates for a wrongly shared <radialGradient> in one OT-SVG document."""
+    vb = r.choice([100, 128, 1000])
+    u = vb / 100.0
+    cx, cy, rad = 50 * u, 50 * u, r.uniform(15, 30) * u
+    stops = f'<stop offset="0" stop-color="#{r.randint(0, 0xFFFFFF):06x}"/><stop offset="1" stop-color="#{r.randint(0, 0xFFFFFF):06x}"/>'
+    k = r.uniform(0.25, 0.6)
+    kind = r.choice(["skew", "stretch-x-vs-y", "stretch-vs-none"])
+    if kind == "skew":
+        t1, t2 = f"matrix(1 0 {k:.3f} 1 {-k*cy:.3f} 0)", f"matrix(1 0 {-k:.3f} 1 {k*cy:.3f} 0)"
+    elif kind == "stretch-x-vs-y":
+        # same maximal scale (so the same uniform part), the other axis squeezed
+        t1 = f"translate({cx:.3f} {cy:.3f}) scale(1 {1-k:.3f}) translate({-cx:.3f} {-cy:.3f})"
+        t2 = f"translate({cx:.3f} {cy:.3f}) scale({1-k:.3f} 1) translate({-cx:.3f} {-cy:.3f})"
+    else:
+        t1 = f"translate({cx:.3f} {cy:.3f}) scale(1 {1-k:.3f}) translate({-cx:.3f} {-cy:.3f})"
+        t2 = ""
+    g = lambda i, t: f'<radialGradient id="tw{gi}_{i}" gradientUnits="userSpaceOnUse" cx="{cx:.3f}" cy="{cy:.3f}" r="{rad:.3f}"' + (f' gradientTransform="{t}"' if t else "") + f">{stops}</radialGradient>"
+    a = f'<rect x="{20*u:.2f}" y="{25*u:.2f}" width="{30*u:.2f}" height="{50*u:.2f}" fill="url(#tw{gi}_0)"/>'
+    b = f'<path d="M{50*u:.2f},{20*u:.2f} L{85*u:.2f},{40*u:.2f} L{70*u:.2f},{85*u:.2f} L{52*u:.2f},{60*u:.2f} Z" fill="url(#tw{gi}_1)"/>'
+    return f'<svg xmlns="http://www.w3.org/2000/svg" viewBox="0 0 {vb} {vb}"><defs>{g(0, t1)}{g(1, t2)}</defs>{a}{b}</svg>', {"kind": kind}
+
+
 VIEWBOXES = [(24, 1), (36, 1), (100, 1), (128, 1), (512, 1), (1000, 1), (128, 0.5), (128, 2), (100, 0.25), (100, 4), (72, 1.3)]
 
 
@@ -330,6 +354,89 @@ def recurrence_set(r, nglyphs=2, pal=None, vb_choices=(64, 128, 1000), same_vb=T
             body += finish_el(el, rnd_color(r, pal), "", "")
         svgs.append(f'<svg xmlns="http://www.w3.org/2000/svg" viewBox="0 0 {vb} {vb}"><defs>{defs}</defs>{body}</svg>')
     return svgs, meta
+
+
+def paint_varied_reuse_set(r, nglyphs=3):
+    """One prototype outline placed by pure translation in several glyphs, every occurrence with its own fill AND its own
+    opacity (so shared-shape encodings must carry more than one per-use paint attribute)."""
+    vb = 100
+    x0, y0, w, h = r.randint(5, 30), r.randint(5, 30), r.randint(10, 30), r.randint(10, 30)
+    d = f"M{x0},{y0} L{x0+w},{y0} L{x0+w},{y0+h} L{x0},{y0+h//2} Z"
+    svgs = []
+    for g in range(nglyphs):
+        body = ""
+        for c in range(r.randint(1, 3)):
+            dx, dy = r.randint(0, 40), r.randint(0, 40)
+            fill = "#%02x%02x%02x" % (r.randint(1, 255), r.randint(0, 255), r.randint(0, 255))
+            op = f' opacity="{r.choice([0.25, 0.3, 0.5, 0.75, 0.8])}"' if r.random() < 0.85 else ""
+            tr = f' transform="translate({dx} {dy})"' if (g or c) else ""
+            body += f'<path d="{d}" fill="{fill}"{op}{tr}/>'
+        svgs.append(f'<svg xmlns="http://www.w3.org/2000/svg" viewBox="0 0 {vb} {vb}">{body}</svg>')
+    return svgs
+
+
+def grid_recurrence_set(r, nglyphs=2, gradients=True, pal=None):
+    """Recurrence on an integer grid: the viewBox maps to font units by an integer factor, shapes and the centres /
+    offsets of the placing transforms are integers, scales are 'nice' (-1, 1/2, 3/2, 2, 1 on one axis) - so the encoder
+    gets exact integer translations and centres and picks its *specialised* paints (PaintTranslate, PaintScale,
+    PaintScale[Uniform]AroundCenter) instead of the general matrix.  -> (svgs, config overrides, meta)"""
+    vb = r.choice([64, 100, 128])
+    k = r.choice([8, 10, 16])
+    em = vb * k
+    asc = (em * r.choice([3, 4])) // 4 if r.random() < 0.7 else em
+    cfg = {"upem": em if em <= 2048 else 2048, "ascender": asc, "descender": asc - em, "width": em, "clip_to_viewbox": False}
+    # prototype with integer coordinates and an axis-aligned first edge (so picosvg finds the affine)
+    x0, y0 = r.randint(vb // 8, vb // 3), r.randint(vb // 8, vb // 3)
+    w, h = r.randint(vb // 10, vb // 4), r.randint(vb // 10, vb // 4)
+    kind = r.choice(["rect", "L", "tri"])
+    if kind == "rect":
+        d = f"M{x0},{y0} L{x0+w},{y0} L{x0+w},{y0+h} L{x0},{y0+h} Z"
+    elif kind == "L":
+        d = f"M{x0},{y0} L{x0+w},{y0} L{x0+w},{y0+h//2} L{x0+w//2},{y0+h//2} L{x0+w//2},{y0+h} L{x0},{y0+h} Z"
+    else:
+        d = f"M{x0},{y0} L{x0+w},{y0} L{x0+w//3},{y0+h} Z"
+    bbox = (x0, y0, w, h)
+    svgs, kinds = [], []
+    first = True
+    for g in range(nglyphs):
+        defs, body = "", ""
+        for c in range(r.randint(1, 3)):
+            if first:
+                tr = ""
+                first = False
+            else:
+                cx, cy = r.randint(0, vb), r.randint(0, vb)
+                tk = r.choice(["translate", "mirror-x+dy", "mirror-y+dx", "scale-x+dy", "scale-y+dx", "scale-xy", "uniform-centre", "uniform-origin"])
+                kinds.append(tk)
+                dx, dy = r.randint(-vb // 4, vb // 3), r.randint(-vb // 4, vb // 3)
+                sc = r.choice([0.5, 1.5, 2, -1, -0.5])
+                if tk == "translate":
+                    tr = f"translate({dx} {dy})"
+                elif tk == "mirror-x+dy":
+                    tr = f"translate(0 {dy}) translate({cx} 0) scale(-1 1) translate({-cx} 0)"
+                elif tk == "mirror-y+dx":
+                    tr = f"translate({dx} 0) translate(0 {cy}) scale(1 -1) translate(0 {-cy})"
+                elif tk == "scale-x+dy":
+                    tr = f"translate(0 {dy}) translate({cx} 0) scale({sc} 1) translate({-cx} 0)"
+                elif tk == "scale-y+dx":
+                    tr = f"translate({dx} 0) translate(0 {cy}) scale(1 {sc}) translate(0 {-cy})"
+                elif tk == "scale-xy":
+                    tr = f"translate({cx} {cy}) scale({sc} {r.choice([0.5, 1.5, -1, 2])}) translate({-cx} {-cy})"
+                elif tk == "uniform-centre":
+                    tr = f"translate({cx} {cy}) scale({abs(sc)}) translate({-cx} {-cy})"
+                else:
+                    tr = f"scale({r.choice([0.5, 1.5, 2])})"
+            if gradients and r.random() < 0.35:
+                gid = f"gg{g}_{c}"
+                gx, _ = gradient(r, gid, bbox, pal)
+                defs += gx
+                fill = f"url(#{gid})"
+            else:
+                fill = rnd_color(r, pal)
+            trs = f' transform="{tr}"' if tr else ""
+            body += f'<path d="{d}" fill="{fill}"{trs}/>'
+        svgs.append(f'<svg xmlns="http://www.w3.org/2000/svg" viewBox="0 0 {vb} {vb}"><defs>{defs}</defs>{body}</svg>')
+    return svgs, cfg, {"transforms": kinds, "kind": kind, "vb": vb, "k": k}
 
 
 # ---------------------------------------------------------------------------------------
